@@ -97,10 +97,22 @@ _SEG_UNCOV = {
 def seg_harnesses(quick_lens, thorough_lens):
     out = []
     for n in quick_lens + thorough_lens:
-        out.append(H('c02_seg_len%d' % n, 'decoder', 'quick' if n in quick_lens else 'thorough', 900 if n < 12 else 1500, 10,
+        out.append(H('c02_seg_len%d' % n, 'decoder_seg', 'quick' if n in quick_lens else 'thorough', 900 if n < 12 else 1500, 10,
                      'every segment text of exactly %d ASCII bytes (any number/size of VLQ fields, foreign bytes included) x any '
                      'previous decoder state x any array lengths x any line_index < 10' % n,
                      allow_uncovered=_SEG_UNCOV.get(n)))
+    return out
+
+
+def line_harnesses(quick_lens, thorough_lens):
+    out = []
+    for n in quick_lens + thorough_lens:
+        out.append(H('c02_line_n%d' % n, 'decoder_line', 'quick' if n in quick_lens else 'thorough',
+                     {1: 1500, 2: 3000, 3: 7200}[n], {1: 12, 2: 16, 3: 24}[n],
+                     'lifted body of the per-line loop of decode_regular (real line.split(\',\').enumerate(), column reset, empty-segment '
+                     'skip): every line of exactly %d bytes over {\',\', single-digit VLQ}, any column left by the previous line, any '
+                     'line number, optional 1-digit range-mapping entry (decode_rmi mocked)' % n,
+                     nocover=(n == 1), allow_uncovered=['two tokens on the line'] if n == 2 else None))
     return out
 
 
@@ -108,7 +120,7 @@ PROPS['C02'] = {
     'title': 'Decoding follows the Source Map v3 wire format',
     'functions': SEG_FUNCS + ['decoder::decode_common', 'decoder::decode_index (no sections)', 'hermes::decode_hermes (no function maps)',
                               'decoder::decode_regular (whole, on an empty mappings string)'],
-    'harnesses': [H('c02_seg_empty', 'decoder', 'quick', 600, 8, 'the empty segment, any state', nocover=True)]
+    'harnesses': [H('c02_seg_empty', 'decoder_seg', 'quick', 600, 8, 'the empty segment, any state', nocover=True)]
                  + seg_harnesses([1, 4, 5, 8, 11], [2, 3, 6, 7, 10, 14]) + [
         H('c02_dispatch_%s' % k, 'decoder', 'quick', 900, 8,
           'decode_common on a RawSourceMap value with empty mappings and the key combination "%s" (concrete document: a unit '
@@ -117,10 +129,12 @@ PROPS['C02'] = {
     ] + [
         H('c02_debugid', 'decoder', 'quick', 900, 8,
           'decode_regular on an empty document with symbolic presence and value of debug_id and debugId'),
-    ],
+    ] + line_harnesses([1, 2], [3]),
     'assumptions': SEG_ASSUME,
     'trusted': [S1, 'reference VLQ reader of h_vlq.rs'],
-    'outside': ['the outer loop headers mappings.split(\';\').zip(..).enumerate() and line.split(\',\').enumerate(): that the generated line is the number of preceding \';\' and that the column restarts per line',
+    'outside': ['the outermost loop header mappings.split(\';\').zip(rangeMappings...).enumerate(): that the generated line is the number of '
+                'preceding \';\' and that each line is paired with its own rangeMappings entry (lifting the whole nest timed out at 60 min / ran out of 20 GB even for 2-byte documents)',
+                'lines longer than 3 bytes in the line-level harness; multi-field segments there (they are decided by the segment-level harnesses)',
                 'everything decided by serde_json (keys, types, null sources, numeric names, junk header + JSON)',
                 'sourceRoot joining (string formatting)', 'segments longer than 14 bytes',
                 'decode_index with sections (sorting of sections by offset): symex did not finish in 40 min (recursive drop glue of RawSection)'],
@@ -184,7 +198,7 @@ PROPS['C07'] = {
     ] + seg_harnesses([4, 5, 8], []) + [
         H('c07_rmi_decode_len1', 'decoder', 'quick', 900, 10, 'decode_rmi (real bitvec code) on every 1-character ASCII string: bit layout, foreign characters refused'),
         H('c07_rmi_decode_len2', 'decoder', 'quick', 1200, 12, 'decode_rmi on every 2-character ASCII string'),
-    ],
+    ] + line_harnesses([], [2, 3]),
     'assumptions': ['struct-literal maps, tokens assumed sorted (C04)'] + SEG_ASSUME,
     'trusted': [],
     'outside': [],
@@ -202,7 +216,7 @@ PROPS['C05'] = {
           'sorted 3-token map, arbitrary flags and (dangling) ids, 1 source/name/content; any lookup position; every accessor; any index'),
         H('c05_index_any', 'types', 'quick', 1200, 10,
           '2 sections with non-decreasing (also equal) offsets, each with or without a 1-token map, any position, any section index'),
-        H('c05_flatten_arith', 'types', 'quick', 900, 10,
+        H('c05_flatten_arith', 'types_flat', 'quick', 900, 10,
           'lifted per-token body of flatten, any token, any offsets (also overflowing ones): returns without panic, never a wrapped position'),
         H('c14_scope_n2', 'hermes', 'quick', 900, 10, 'Hermes scope lookup: any token (original line up to u32::MAX), 2 scope entries'),
         H('c14_bytecode', 'hermes', 'quick', 1200, 10, 'Hermes bytecode-offset lookup, any offset'),
@@ -221,10 +235,10 @@ PROPS['C08'] = {
         H('c08_lookup_2x1', 'types', 'quick', 1500, 10, '2 sections (strictly increasing offsets, any u32) x 1 token each, any position'),
         H('c08_lookup_1x2', 'types', 'quick', 1500, 10, '1 section (any offset) x 2 sorted tokens, any position'),
         H('c08_lookup_nomap', 'types', 'quick', 1500, 10, '2 sections, exactly one without a map, any position'),
-        H('c08_flat_step', 'types', 'quick', 900, 10,
+        H('c08_flat_step', 'types_flat', 'quick', 900, 10,
           'lifted per-token body of flatten with a recording mock builder: any token of a section map (2 sources: #0 with '
           'contents, #1 without and ignored; 1 name; ids may dangle), any offsets whose sums fit u32, any mock answers'),
-        H('c08_agree', 'types', 'quick', 1800, 10,
+        H('c08_agree', 'types_flat', 'quick', 1800, 10,
           '2 sections x 1 token, strictly increasing offsets, token of section 0 before section 1: flattened position (lifted body) '
           'fed to the real lookup_token'),
     ],
@@ -339,7 +353,7 @@ PROPS['C14'] = {
     ] + [
         H('c14_bytecode', 'hermes', 'quick', 1200, 10, '2 sorted scope entries, 1 token, any bytecode offset; DecodedMap with any line'),
     ] + [
-        H('c14_fm_len%d' % n, 'hermes', 'quick' if n <= 5 else 'thorough', 900, 10,
+        H('c14_fm_len%d' % n, 'hermes_fm', 'quick' if n <= 5 else 'thorough', 900, 10,
           'lifted function-map mapping body: every mapping text of exactly %d ASCII bytes x any previous (column, name_index, line)' % n,
           allow_uncovered=['three fields', 'negative name-index'] if n == 1 else (['three fields'] if n == 2 else None))
         for n in (1, 2, 3, 5, 9)
